@@ -183,7 +183,7 @@ func verifySeal(
 	for seen, recent := range snap.Recents {
 		if recent == signer {
 			// Signer is among recents, only fail if the current block doesn't shift it out
-			if limit := uint64(len(snap.Validators)/2 + 1); seen > number-limit {
+			if limit := uint64(len(snap.Validators)/2 + 1); number < limit || seen > number-limit {
 				return errorsmod.Wrap(ErrRecentlySigned, signer.Hex())
 			}
 		}
